@@ -519,6 +519,45 @@ def random_cases(seed: int, count: int):
     return out
 
 
+# forms compiled under non-default options (every kernel property must hold for them too)
+OPTION_CASES = [
+    _c("opt_sf_quad_tp_space_plain_geometry", '''
+m=mesh("quadrilateral"); V=FunctionSpace(m,tp("quadrilateral",2)); u,v=TrialFunction(V),TestFunction(V)
+objs=[u*v*dx + inner(grad(u),grad(v))*dx]
+options={"sum_factorization": True}'''),
+    _c("opt_sf_quad_plain_coefficient_and_test", '''
+m=tpmesh("quadrilateral"); V=FunctionSpace(m,tp("quadrilateral",2)); W=space(m,"Q",1); u,v=TrialFunction(V),TestFunction(V); f=Coefficient(W); q=TestFunction(W)
+objs=[f*u*v*dx, f*v*dx, u*q*dx]
+options={"sum_factorization": True}'''),
+    _c("opt_sf_hex_tp_space_plain_geometry_dg", '''
+m=mesh("hexahedron"); V=FunctionSpace(m,tp("hexahedron",1)); u,v=TrialFunction(V),TestFunction(V); k=Coefficient(space(m,"DQ",1))
+objs=[k*u*v*dx]
+options={"sum_factorization": True}'''),
+    _c("opt_sf_quad_two_rules_one_point", '''
+m=tpmesh("quadrilateral"); V=FunctionSpace(m,tp("quadrilateral",1)); u,v=TrialFunction(V),TestFunction(V); f=Coefficient(V)
+objs=[f*u*v*dx(degree=1) + u*v*dx(degree=3)]
+options={"sum_factorization": True}'''),
+    _c("opt_sf_with_facets", '''
+m=tpmesh("quadrilateral"); V=FunctionSpace(m,tp("quadrilateral",1)); u,v=TrialFunction(V),TestFunction(V); f=Coefficient(V)
+objs=[f*u*v*ds + jump(u)*jump(v)*dS + u*v*dx]
+options={"sum_factorization": True}'''),
+    _c("opt_diagonal_mixed_and_dS", '''
+m=mesh("triangle"); P2=el("P","triangle",2,shape=(2,)); P1=el("P","triangle",1)
+W=FunctionSpace(m,basix.ufl.mixed_element([P2,P1])); (u,p)=TrialFunctions(W); (v,q)=TestFunctions(W)
+V=space(m,"DP",1); a,b=TrialFunction(V),TestFunction(V)
+objs=[inner(sym(grad(u)),sym(grad(v)))*dx - p*div(v)*dx + p*q*dx, jump(a)*jump(b)*dS + a*b*dx]
+options={"part": "diagonal"}'''),
+    _c("opt_coarse_table_tolerances", '''
+m=mesh("triangle"); V=space(m,"P",2); u,v=TrialFunction(V),TestFunction(V); f=Coefficient(V)
+objs=[f*inner(grad(u),grad(v))*dx + u*v*ds]
+options={"table_rtol": 1e-3, "table_atol": 1e-3}'''),
+    _c("opt_complex_two_rules", '''
+m=mesh("triangle"); V=space(m,"P",2); u,v=TrialFunction(V),TestFunction(V); f=Coefficient(V)
+objs=[f*inner(u,v)*dx(degree=1) + inner(grad(u),grad(v))*dx(degree=2)]
+options={"scalar_type": "complex128"}'''),
+]
+
+
 UNSUPPORTED = [
     _c("custom_integral", '''
 m=mesh("triangle"); V=space(m,"P",1); v=TestFunction(V)
